@@ -28,12 +28,13 @@ LEVEL_NOTE = ("Trusted: Coq kernel, Go harness + Python glue. Modelled, not veri
 THEOREMS = ["height_spec", "ancestor_lower", "closure_spec", "closure_sorted", "ancestors_spec", "addr_stable",
             "commit_is_function_of_parents", "oracle_accepts_model"]
 RULE = ("random commit DAGs of 5-60 commits created through datas.Database.Commit on chunks.TestStorage: chains, branchy graphs with 2-, 3- and "
-        "4-parent merges, duplicate parents, criss-cross merge ladders, several roots later merged, amend/squash commits (CommitOptions.AmendedCommit); non-trivial = at least one merge or two roots; "
+        "4-parent merges, duplicate parents, criss-cross merge ladders, several roots later merged, amend/squash commits (CommitOptions.AmendedCommit), and long-mainline / short-branch histories (330 commits in quick, up to 800 in thorough) merged both ways, so that the parents' stored closures live in prolly trees of different depth (tree depth reported by the harness; for histories > 60 commits the closures of the merges, their children and a few other commits are compared in full, heights and parent lists for all commits); non-trivial = at least one merge or two roots; "
         "distinct by parent lists + salt")
 ASSUMPTIONS = ["commit messages are unique per commit (index + salt), so distinct commits have distinct addresses",
                "parents are named by address, hence are earlier commits (the API cannot name a commit that does not exist yet)"]
 REQUIRED_TAGS = ["merge2", "merge3plus", "dup-parent", "multi-root", "crisscross", "long-chain", "closure-union-adds",
-                 "same-height-keys", "root-only-closure-empty", "amend"]
+                 "same-height-keys", "root-only-closure-empty", "amend", "merge-first-parent-shallow-closure-second-deep",
+                 "merge-first-parent-deep-closure-second-shallow"]
 
 
 # ---------------------------------------------------------------- generators
@@ -146,6 +147,10 @@ def gen_cases(rng, tier):
     cases.append({"h": gen_chain(rng, 40), "salt": 1})
     cases.append({"h": gen_crisscross(rng, 60), "salt": 2})
     cases.append({"h": gen_multiroot(rng, 60), "salt": 3})
+    cases.append(gen_long_short(rng, 330 if tier == "quick" else 600))
+    if tier != "quick":
+        for _ in range(12):
+            cases.append(gen_long_short(rng, rng.choice([250, 400, 600, 800])))
     while len(cases) < n:
         big = tier != "quick" and rng.random() < 0.15
         c = {"h": gen_dag(rng, rng.choice([40, 50, 60]) if big else None), "salt": rng.randrange(1 << 30)}
@@ -153,6 +158,29 @@ def gen_cases(rng, tier):
             add_amends(rng, c)
         cases.append(c)
     return cases
+
+
+def gen_long_short(rng, main_len, fork_at=None, feat_len=None):
+    """a long mainline, a short feature branch forked early, then merge(feature, main) [feature head FIRST parent: its stored closure
+    fits one prolly leaf while the mainline head's closure has spilled into a two-level tree], the mirror merge(main, feature), and a
+    child of each.  Only the closures of the merges, their children and a few others are reported (sel)."""
+    fork_at = rng.randint(3, 20) if fork_at is None else fork_at
+    feat_len = rng.randint(1, 4) if feat_len is None else feat_len
+    h = [[]] + [[i - 1] for i in range(1, main_len)]
+    main_head = main_len - 1
+    prev = fork_at
+    for _ in range(feat_len):
+        h.append([prev])
+        prev = len(h) - 1
+    feat_head = prev
+    h.append([feat_head, main_head]); m1 = len(h) - 1      # feature first
+    h.append([main_head, feat_head]); m2 = len(h) - 1      # mirror
+    h.append([m1]); c1 = len(h) - 1
+    h.append([m2]); c2 = len(h) - 1
+    sel = [m1, c1, m2, feat_head, fork_at, rng.randrange(main_len), 0]
+    if rng.random() < 0.5:
+        sel.append(c2)
+    return {"h": h, "salt": rng.randrange(1 << 30), "sel": sel}
 
 
 def add_amends(rng, c):
@@ -210,13 +238,14 @@ def cq_hist(h):
 def coq_case(case, out):
     o = out.get("obs")
     h = case["h"]
+    sel = cq_list(str(i) for i in (case["sel"] if case.get("sel") is not None else range(len(h))))
     if o is None:
         # harness error / panic: an observation no model agrees with and the oracle rejects
-        return "((%s, %s), {| o_heights := []; o_parents := []; o_closures := []; o_stable := false |})" % (
-            cq_hist(h), cq_list(str(i) for i in range(len(h))))
+        return "(((%s, %s), %s), {| o_heights := []; o_parents := []; o_closures := []; o_stable := false |})" % (
+            cq_hist(h), cq_list(str(i) for i in range(len(h))), sel)
     cl = cq_list(cq_list("(%d,%d)" % (k[0], k[1]) for k in c) for c in o["closures"])
-    return "((%s, %s), {| o_heights := %s; o_parents := %s; o_closures := %s; o_stable := %s |})" % (
-        cq_hist(h), cq_list(str(r) for r in o["rank"]), cq_list(str(x) for x in o["heights"]),
+    return "(((%s, %s), %s), {| o_heights := %s; o_parents := %s; o_closures := %s; o_stable := %s |})" % (
+        cq_hist(h), cq_list(str(r) for r in o["rank"]), sel, cq_list(str(x) for x in o["heights"]),
         cq_hist(o["parents"]), cl, cq_bool(o["stable"]))
 
 
@@ -227,7 +256,15 @@ def classify(case, out):
     h = case["h"]
     t = []
     n = len(h)
-    t.append("n<=10" if n <= 10 else "n<=30" if n <= 30 else "n<=60")
+    t.append("n<=10" if n <= 10 else "n<=30" if n <= 30 else "n<=60" if n <= 60 else "n>60")
+    lv = o.get("levels") or []
+    selset = set(case["sel"]) if case.get("sel") is not None else set(range(n))
+    for i, ps in enumerate(h):
+        if len(ps) >= 2 and i in selset and lv:
+            if any(lv[ps[0]] < lv[p] for p in ps[1:]):
+                t.append("merge-first-parent-shallow-closure-second-deep")
+            if any(lv[ps[0]] > lv[p] for p in ps[1:]):
+                t.append("merge-first-parent-deep-closure-second-shallow")
     roots = sum(1 for ps in h if not ps)
     if roots >= 2:
         t.append("multi-root")
@@ -247,7 +284,8 @@ def classify(case, out):
         t.append("closure-union-adds")
     if any(len(set(k[0] for k in c)) < len(c) for c in o["closures"]):
         t.append("same-height-keys")
-    if any(not ps and not o["closures"][i] for i, ps in enumerate(h)):
+    sel_list = case["sel"] if case.get("sel") is not None else list(range(n))
+    if any(not h[i] and not o["closures"][k] for k, i in enumerate(sel_list)):
         t.append("root-only-closure-empty")
     if not o["stable"]:
         t.append("unstable")
@@ -275,6 +313,13 @@ def _renumber_drop(h, d):
 
 def shrink_candidates(case):
     h = case["h"]
+    if case.get("sel") is not None:
+        # keep the history, report fewer closures
+        sel = case["sel"]
+        for k in range(len(sel)):
+            if len(sel) > 1:
+                yield dict(case, sel=sel[:k] + sel[k + 1:])
+        return
     if case.get("amend"):
         yield {"h": h, "salt": case.get("salt", 0)}      # same shape without the amend flag
         return
@@ -288,6 +333,8 @@ def shrink_candidates(case):
 
 def neighbours(case, rng):
     h = case["h"]
+    if len(h) > 60:
+        return []
     out = []
     n = len(h)
     for _ in range(40):
